@@ -788,15 +788,94 @@ def identify_case(rng):
     return ops
 
 
+def fbsize_case(rng, kind=None):
+    """C04/C19 (and C12/C13): the configured maximum message size holds on substreams negotiated under a FALLBACK name.
+    Node 0 registers `/x/new` with maximum m0 and fallback name `/x/a`; node 1 only knows `/x/a` (maximum 65536): every
+    substream between them is negotiated as `/x/a`, which node 0's `ProtocolSet` must resolve to `/x/new`'s codec.
+    Messages of exactly m0, m0 + 1 and far above, in both directions (seeded C04-e2 / C12-e1 / C19-e1)."""
+    ka = 2500
+    kind = kind or rng.choice(["notif", "rr"])
+    m0 = rng.choice([32, 64, 256, 1000])
+    big = 65536
+    far = rng.choice([m0 * 20, 60000, big])
+    over = lambda: rng.choice([m0 + 1, m0 + 1, far])  # noqa: E731
+    if kind == "notif":
+        a = base_cfg(0, ka, notif=[{"name": "/n/new", "max": m0, "hs": "01", "fb": ["/n/a"], "mode": "a"}], user=[user()])
+        b = base_cfg(1, ka, notif=[{"name": "/n/a", "max": big, "hs": "02", "fb": [], "mode": "a"}], user=[user()])
+        ops = [render_node(a), render_node(b), "dialaddr 1 0 r0", "await 0 app E1 2000", "await 1 app E0 2000"]
+        opener = rng.choice([0, 1])
+        ops += [f"open_notif {opener} {'/n/new' if opener == 0 else '/n/a'} {1 - opener}", "settle", "events 0", "events 1"]
+        tag = 1
+        first = rng.choice(["recv", "send"])
+        for phase in ([first, "send" if first == "recv" else "recv"]):
+            frm, proto = (1, "/n/a") if phase == "recv" else (0, "/n/new")
+            # at the maximum: delivered; above: refused (receiver's codec for "recv", node 0's own sink for "send")
+            for ln in (m0, over(), 5):
+                ops += [f"notify {frm} {proto} {1 - frm} {ln} {tag}", "settle", "events 0", "events 1"]
+                tag += 1
+            # the stream is gone after an oversized frame: open again for the second phase
+            ops += [f"open_notif {frm} {proto} {1 - frm}", "settle", "events 0", "events 1"]
+        return ops
+    a = base_cfg(0, ka, rr=[{"name": "/r/new", "max": m0, "timeout": 600, "fb": ["/r/a"], "maxin": None}], user=[user()])
+    b = base_cfg(1, ka, rr=[{"name": "/r/a", "max": big, "timeout": 600, "fb": [], "maxin": None}], user=[user()])
+    ops = [render_node(a), render_node(b), "dialaddr 1 0 r0", "await 0 app E1 2000", "await 1 app E0 2000"]
+    tag = 1
+    steps = [("in", m0, 4), ("in", over(), 4), ("out", m0, m0), ("out", over(), 4), ("out", 3, over()), ("in", 2, m0), ("in", 2, over())]
+    rng.shuffle(steps)
+    for direction, ln, rl in steps:
+        frm, proto, rproto = (1, "/r/a", "/r/new") if direction == "in" else (0, "/r/new", "/r/a")
+        to = 1 - frm
+        ops += [f"request {frm} {proto} {to} {ln} {tag}", "settle", f"events {to}"]
+        # the responder answers the newest request that has arrived (`none` if nothing did)
+        ops += [f"respond {to} {rproto} n {rl} {(tag + 100) % 256}", "settle", f"events {frm}", f"events {to}"]
+        tag += 1
+    ops += ["wait 900", "events 0", "events 1"]
+    return ops
+
+
+def dialorder_case(rng):
+    """C10: a dial by peer id tries the known addresses in non-increasing score order — through the REAL TCP transport with
+    one dial slot (`with_max_parallel_dials(1)`), a peer known under `/dns4/127.0.0.1/tcp/<closed port>` (resolved without
+    network; DNS addresses carry the public-address bonus) and `/ip4/127.0.0.1/tcp/<closed port>` addresses; every attempt
+    fails and `ListDialFailures` lists the attempts in the order they were made (seeded C10-e2)."""
+    ka = 2500
+    ports = rng.sample(range(1, 10), rng.choice([3, 4, 5]))
+    n_dns = rng.choice([1, 1, 2])
+    kinds = [f"d{k}" for k in ports[:n_dns]] + [("x" if k == 1 else f"x{k}") for k in ports[n_dns:]]
+    rng.shuffle(kinds)
+    mpd = rng.choice([1, 1, 1, 0, 2])
+    a = base_cfg(0, ka, user=[user()])
+    b = base_cfg(1, ka, user=[user()], mpd=mpd)
+    how = rng.choice(["known", "addknown", "mixed"])
+    ops = [render_node(a)]
+    if how == "known":
+        b["known"] = [(0, kinds)]
+        ops.append(render_node(b))
+    elif how == "addknown":
+        ops += [render_node(b), f"addknown 1 0 {'+'.join(kinds)}"]
+    else:
+        b["known"] = [(0, kinds[:2])]
+        ops += [render_node(b), f"addknown 1 0 {'+'.join(kinds[2:])}"]
+    if rng.random() < 0.4:
+        # one address has failed before: its score is lower
+        ops += [f"dialaddr 1 0 {rng.choice(kinds)}", "settle 600", "events 1"]
+    ops += ["scores 1 0", "dial 1 0", "settle 600", "events 1", "scores 1 0"]
+    if rng.random() < 0.3:
+        ops += ["dial 1 0", "settle 600", "events 1", "scores 1 0"]
+    return ops
+
+
 MALFORMED = [
     ["node 1 ka=500"], ["dial 0 1"], ["node 0 ka=abc"], ["node 0 bogus"], ["node 0 notif=/n/a:1:zz:-:a"],
     ["node 0 user=/u/a:uv-", "dial 0 0", "dial 0 7", "events 3", "open_notif 0 /n/a 0", "request 0 /r/a 0 1 1", "wait 99999", "settle 5"],
     ["node 0 ka=500", "node 0 ka=600"], ["events 0"], ["node 0 lim=1", "node 0 rr=/r/a:64"],
     ["node 0 user=/u/a:uv-", "node 1 user=/u/a:uv-", "node 2", "node 3"],
     ["node 0 user=/u/a:uv-", "dialaddr 0 0 r0", "dialaddr 0 0 l5", "close 0 /u/a 0", "open_sub 0 /u/zz 0", "drop_subs 0 /u/a"],
+    ["node 0 mpd=x"], ["node 0 tcpc=nra~0"], ["node 0 tcpc=zz~1"], ["node 0 kad=d:-:mr~x"], ["node 0 kad=d:-:bogus~1"], ["node 0 notif=/n/a:8:-:-:a:0:1:1"],
+    ["node 0 identify=1 ida=a,b"], ["node 0 pingf=-1 ping=1"], ["node 0", "scores 0 0", "scores 0 3", "scores 1 0", "dialaddr 0 0 d0", "dialaddr 0 0 x1", "addknown 0 0 d10"],
 ]
 
-FAMILIES = {"dial": dial_case, "limits": limits_case, "conn": conn_case, "keepalive": keepalive_case,
+FAMILIES = {"fbsize": fbsize_case, "dialorder": dialorder_case, "dial": dial_case, "limits": limits_case, "conn": conn_case, "keepalive": keepalive_case,
             "reqresp": reqresp_case, "notif": notif_case, "identify": identify_case}
 
 # dynamic families per owning property (the static wiring cases and the malformed stream always run)
@@ -809,6 +888,11 @@ FOCUS = {
     "C11": [("notif", 14)],
     "C12": [("notif", 12)],
     "C13": [("reqresp", 16)],
+    "C04": [("fbsize", 8)],
+    "C19": [("fbsize", 8)],
+    "C10": [("dialorder", 12)],
+    # static wiring only
+    "C02": [], "C16": [], "C17": [], "C20": [],
     None: [(f, 4) for f in FAMILIES],
 }
 
@@ -837,6 +921,8 @@ def gen_cases(rng, tier, focus=None):
     cases += [wiring_case(rng) for _ in range(30 * scale)]
     for fam, n in FOCUS.get(focus, FOCUS[None]):
         cases += [FAMILIES[fam](rng) for _ in range(n * scale)]
+    if focus in ("C04", "C19"):
+        cases += [fbsize_case(rng, kind=k) for k in ("notif", "rr")]
     if focus == "C09":
         # every kind at every seed
         cases += [keepalive_case(rng, kind=k, fb=True) for k in ("idle", "ping", "held", "held-notif", "libp2p", "held-rr", "held-rr")]
@@ -1289,7 +1375,7 @@ def oracle_c13(case, out):
         if t[0] == "request" and len(t) >= 6 and o.startswith("ok q"):
             node, proto, target, ln, tag = int(t[1]), t[2], int(t[3]), int(t[4]), int(t[5])
             reqs[(node, proto, o[3:])] = {"at": i, "target": target, "len": ln, "tag": tag, "dial": "dial" in t[6:], "fb": [a for a in t[6:] if a.startswith("fb=")]}
-        if t[0] == "respond" and len(t) == 6 and o == "ok":
+        if t[0] == "respond" and len(t) == 6 and o == "ok" and t[3] != "n":
             responded[(int(t[1]), t[2], int(t[3]))] = (int(t[4]), int(t[5]))
         if t[0] == "reject" and len(t) == 4 and o == "ok":
             responded[(int(t[1]), t[2], int(t[3]))] = "reject"
@@ -1495,7 +1581,99 @@ def oracle_c12(case, out):
     return bad
 
 
-ORACLES = {"C05": oracle_c05, "C06": oracle_c06, "C07": oracle_c07, "C08": oracle_c08, "C09": oracle_c09,
+SIZE_KINDS = ("oversized-delivered", "oversized-sent", "oversized-accepted", "oversized-not-refused", "refused-below-max",
+              "notification-altered", "request-altered")
+
+
+def _peer_proto(cfgs, node, proto, peer, kind):
+    """The protocol of `peer` that shares a (main or fallback) name with `proto` of `node`, or None."""
+    mine = _proto_names(cfgs.get(node, {kind: []}), kind).get(proto)
+    if mine is None:
+        return None, None
+    ours = {mine["name"], *mine["fb"]}
+    for p in cfgs.get(peer, {kind: []})[kind]:
+        if ours & {p["name"], *p["fb"]}:
+            return mine, p
+    return mine, None
+
+
+def oracle_sizes(case, out):
+    """C04 / C19 at node level: the CONFIGURED maximum message size is in force on every substream, whatever name it was
+    negotiated under: nothing larger than the receiver's maximum is ever delivered (request, response, notification),
+    nothing larger than the sender's own maximum leaves it, an oversized frame is an ERROR at the receiver (the
+    notification stream is reported closed, the request fails) — so no buffer beyond the configured limit is ever filled —
+    and a message of exactly the maximum passes."""
+    bad = [v for v in oracle_c12(case, out) + oracle_c13(case, out) if v["kind"] in SIZE_KINDS]
+    tr = Trace(case, out)
+    for i, t, o in tr.ops():
+        if t[0] != "notify" or len(t) != 6 or o != "ok":
+            continue
+        frm, proto, to, ln, tag = int(t[1]), t[2], int(t[3]), int(t[4]), int(t[5])
+        mine, theirs = _peer_proto(tr.cfgs, frm, proto, to, "notif")
+        if mine is None or theirs is None:
+            continue
+        fin = tr.final_events_index(to, i)
+        if fin is None:
+            continue
+        src = "n:" + theirs["name"]
+        after = [x for (k, x) in tr.events(to, src) if i < k <= fin]
+        if ln > min(mine["max"], theirs["max"]):
+            if f"C{frm}" not in after and not any(re.match(rf"N{frm}:{ln}:{tag}$", x) for x in after):
+                _v(bad, case, out, "oversized-not-an-error", f"node {frm} sent a notification of {ln} bytes on {proto} (its maximum {mine['max']}, "
+                   f"node {to}'s maximum {theirs['max']} for {theirs['name']}): node {to} neither refused it by closing the stream nor "
+                   f"reported anything (events after the send: {after})", i)
+        else:
+            # within both maxima on an open stream (the sink existed): it arrives
+            if not any(re.match(rf"N{frm}:{ln}:{tag}$", x) for x in after) and not any(x == f"C{frm}" for (k, x) in tr.events(to, src) if k <= fin):
+                _v(bad, case, out, "refused-below-max", f"node {frm} sent a notification of {ln} bytes on {proto} (maxima {mine['max']} / "
+                   f"{theirs['max']}) over an open stream; node {to} did not receive it (events after the send: {after})", i)
+    return bad
+
+
+def oracle_c10(case, out):
+    """A dial by peer id tries the peer's addresses in non-increasing score order (scores as the manager holds them right
+    before the dial). Judged where the order of attempts is observable: one dial slot (`max_parallel_dials` = 1, so the
+    attempts are made one after the other) and every attempt fails (`ListDialFailures` lists them as they failed)."""
+    bad = []
+    tr = Trace(case, out)
+    scores = {}
+    for i, t, o in tr.ops():
+        if t[0] == "scores" and len(t) == 3 and o.startswith("scores=["):
+            scores = {"at": i, "who": (t[1], t[2]), "map": dict(x.rsplit("=", 1) for x in o[8:-1].split(",") if "=" in x)}
+            continue
+        if t[0] == "dial" and len(t) == 3 and o == "ok" and scores and scores["at"] == i - 1 and scores["who"] == (t[1], t[2]):
+            node = int(t[1])
+            c = tr.cfgs.get(node)
+            if c is None or c.get("mpd") is None or max(1, c["mpd"]) != 1:
+                continue
+            fin = tr.final_events_index(node, i, quiet_ms=500)
+            if fin is None:
+                continue
+            ldf = [x for (k, x) in tr.events(node, "app") if i < k <= fin and x.startswith("LDF:")]
+            if len(ldf) != 1:
+                continue
+            tried = [a.rsplit(":", 1)[0] for a in ldf[0][4:].split("+") if a]
+            sc = []
+            for a in tried:
+                if a not in scores["map"]:
+                    _v(bad, case, out, "dial-unknown-address", f"node {node} tried address {a} which was not in the address book "
+                       f"{scores['map']} of node {t[2]}", i)
+                    break
+                sc.append(int(scores["map"][a]))
+            else:
+                if any(x < y for x, y in zip(sc, sc[1:])):
+                    _v(bad, case, out, "dial-order", f"node {node} (one dial slot) tried the addresses of node {t[2]} in the order "
+                       f"{list(zip(tried, sc))}: not in non-increasing score order (address book before the dial: {scores['map']})", i)
+                best = sorted((int(v) for v in scores["map"].values()), reverse=True)[:len(sc)]
+                if sorted(sc, reverse=True) != best and len(sc) < len(scores["map"]):
+                    _v(bad, case, out, "dial-not-best", f"node {node} tried {list(zip(tried, sc))} although better-scored addresses were "
+                       f"available ({scores['map']})", i)
+        if t[0] != "events":
+            scores = scores if t[0] in ("scores",) else scores
+    return bad
+
+
+ORACLES = {"C04": oracle_sizes, "C19": oracle_sizes, "C10": oracle_c10, "C05": oracle_c05, "C06": oracle_c06, "C07": oracle_c07, "C08": oracle_c08, "C09": oracle_c09,
            "C11": oracle_c11, "C12": oracle_c12, "C13": oracle_c13}
 
 
@@ -1555,12 +1733,19 @@ RULE_NODE = ("node area (real nodes): 30 random configurations per run (every pr
 
 
 NODE_THEOREMS = {
+    "C02": ["noise_config_reaches_transport"],
+    "C04": ["codec_of_fallback_is_codec_of_main"],
     "C05": ["known_and_listen_addresses_installed", "registration_order_irrelevant"],
     "C06": ["configured_limits_installed"],
     "C08": ["identify_told_every_registered_protocol"],
     "C09": ["configured_keep_alive_reaches_service", "keep_alive_flag_by_protocol_kind"],
-    "C11": ["notification_registered_with_own_codec_and_size"],
-    "C13": ["registered_with_own_codec_and_size"],
+    "C10": ["transport_attempts_in_given_order", "max_parallel_dials_reaches_transport"],
+    "C11": ["notification_registered_with_own_codec_and_size", "notification_config_reaches_protocol"],
+    "C13": ["registered_with_own_codec_and_size", "request_response_config_reaches_protocol"],
+    "C16": ["kademlia_config_reaches_protocol"],
+    "C17": ["store_config_reaches_protocol"],
+    "C19": ["fallback_name_keeps_configured_limit"],
+    "C20": ["bitswap_config_reaches_protocol"],
 }
 MANIFEST_NODE = (" Wiring (coverage round `node`): {thms} — over the wiring model Model/Node/Wiring.lean (a function from the "
                  "ConfigBuilder calls to the per-protocol registration record, the limits, addresses and identify's protocol list, "
